@@ -7,8 +7,9 @@ import Nsq.Tie.TimingOpts
 `msg_timeout` satisfies it (`setMsgTimeout_range`); the DEFAULT is the option `--msg-timeout`
 (`Tie.TimingOpts.client_msgTimeout_used_by`), which `nsqd.New` did not compare with `--max-msg-timeout`:
 finding `msg-timeout-above-max` (replayed on the real daemon by harness/e1/opts_timeout_test.go),
-fix F40 (`New` lowers `MsgTimeout` to `MaxMsgTimeout` when it is above; a refusal was tried first and
-rejected: it stops every daemon started with a low `--max-msg-timeout` and the default `--msg-timeout`). `fixed` below = `Tie.TimingOpts.treeFixed`.
+fix F40 = /repo bedf305, committed (`New` lowers `MsgTimeout` to `MaxMsgTimeout` when it is above; a refusal was tried first and
+rejected: it stops every daemon started with a low `--max-msg-timeout` and the default `--msg-timeout`). `fixed` below = `Tie.TimingOpts.treeFixed`,
+which the regenerated facts decide to be `true` (`tree_fixed`): `deadline_cap_this_tree` is the statement about the checked tree.
 -/
 namespace Nsq.Props.C04Opts
 open Nsq.Model.PQ Nsq.Model.Timing Nsq.Model.TimingOpts Nsq.Proofs.PQ Nsq.Proofs.Timing Nsq.Proofs.TimingOpts
@@ -33,6 +34,14 @@ theorem deadline_cap_fixed : DeadlineCap true := by
   refine cap_run max {} ops inv_init (cap_init max) ?_
   intro op hop now id client timeout he
   rcases hops op hop now id client timeout he with h | h <;> omega
+
+/-- **THIS tree** (audit B12): the parameter is the Bool computed from the regenerated statements of `nsqd.New`; the tie
+accepts only the shape with the guard, so a tree that reverts F40 fails `tree_fixed` and this theorem with it. -/
+theorem deadline_cap_this_tree : DeadlineCap Nsq.Tie.TimingOpts.treeFixed := by
+  rw [Nsq.Tie.TimingOpts.tree_fixed]; exact deadline_cap_fixed
+
+example : effectiveMsgTimeout Nsq.Tie.TimingOpts.treeFixed 1200 900 = 900 := by
+  rw [Nsq.Tie.TimingOpts.tree_fixed]; decide
 
 /-- **Without it the clause is false** (the tree before F40): with `--msg-timeout 120 --max-msg-timeout 60`
 the first delivery's deadline is `deliveryTS + 120`. -/
